@@ -5,9 +5,16 @@
  *   script:  S <hex>   a segment of client bytes (one read() returns at most one segment)
  *            W         the client waits for the server (non-blocking polls see no input here; the
  *                      marker is consumed when the server blocks waiting for input)
- * transcript (file "transcript"):  R <hex> | W <hex> | T <state...> | G <log text> | X <exit code> */
+ * transcript (file "transcript"):  R <hex> | W <hex> | T <state...> | G <log text> | X <exit code>
+ * H_REALIO=1: read/poll/write go to the real descriptors (fd 0/1 = a socket given by the caller; real
+ *   TLS peers).  T lines are still written whenever the server blocks for input; the poll() of tarpit()
+ *   (blocking descriptor, events == POLLIN) returns at once.
+ * H_REALIO=2: as 1, but the peer sends *frames* (4 byte big-endian length + payload): one read()
+ *   returns bytes of at most one frame and a zero-timeout poll() sees input iff a frame has arrived,
+ *   so that segmentation is as deterministic as in the scripted mode (also underneath OpenSSL). */
 #define _GNU_SOURCE
 #include <errno.h>
+#include <fcntl.h>
 #include <poll.h>
 #include <stdarg.h>
 #include <stdio.h>
@@ -50,11 +57,99 @@ static void state_line_tag(char tag)
 	fprintf(tr, " %d %lu %lu\n", xmitstat.ssl != NULL, ntarpit, nsleep);
 	fflush(tr);
 }
-static void state_line(void) { state_line_tag('T'); }
+#ifdef H_XMITSTAT
+/* optional (compile with -DH_XMITSTAT): a line "F key=value ..." in front of every T line with what the
+ * session has established for the recipient filters (the oracle inputs of the C12 model) */
+#include <qdns.h>
+static void fhex(const char *k, const char *b, size_t n, int isnull)
+{
+	fprintf(tr, " %s=", k);
+	if (isnull) { fputc('N', tr); return; }
+	if (!n) fputc('-', tr);
+	for (size_t i = 0; i < n; i++) fprintf(tr, "%02x", (unsigned char)b[i]);
+}
+static void facts_line(void)
+{
+	if (!tr) return;
+	fprintf(tr, "F spf=%u hs=%u spacebug=%u size=%lu esmtp=%u v4=%u fd=%d authname=%d tlsclient=%d ssl=%d check2822=%u",
+		xmitstat.spf, xmitstat.helostatus, xmitstat.spacebug, (unsigned long)xmitstat.thisbytes, xmitstat.esmtp,
+		xmitstat.ipv4conn, xmitstat.fromdomain, xmitstat.authname.len != 0, xmitstat.tlsclient != NULL, xmitstat.ssl != NULL,
+		xmitstat.check2822);
+	fhex("ip", (const char *)&xmitstat.sremoteip, 16, 0);
+	fhex("from", xmitstat.mailfrom.s, xmitstat.mailfrom.len, 0);
+	fhex("helostr", xmitstat.helostr.s, xmitstat.helostr.len, 0);
+	fhex("rhost", xmitstat.remotehost.s, xmitstat.remotehost.len, 0);
+	fhex("exp", xmitstat.spfexp, xmitstat.spfexp ? strlen(xmitstat.spfexp) : 0, xmitstat.spfexp == NULL);
+	fputs(" mx=", tr);
+	if (!xmitstat.frommx) fputs("none", tr);
+	else {
+		struct ips *p; unsigned short k; int first = 1;
+		FOREACH_STRUCT_IPS(p, k, xmitstat.frommx) {
+			if (!first) fputc(',', tr);
+			first = 0;
+			for (int i = 0; i < 16; i++) fprintf(tr, "%02x", p->addr[k].s6_addr[i]);
+		}
+	}
+	fputs(" rcpts=", tr);
+	if (TAILQ_EMPTY(&head)) fputc('-', tr);
+	else {
+		struct recip *r; int first = 1;
+		TAILQ_FOREACH(r, &head, entries) {
+			if (!first) fputc(',', tr);
+			first = 0;
+			fprintf(tr, "%d:", r->ok);
+			for (size_t i = 0; i < r->to.len; i++) fprintf(tr, "%02x", (unsigned char)r->to.s[i]);
+		}
+	}
+	fputc('\n', tr);
+}
+#else
+static void facts_line(void) {}
+#endif
+static void state_line(void) { facts_line(); state_line_tag('T'); }
 static void skip_empty(void) { while (cur < nitems && !iswait[cur] && curoff >= seglen[cur]) { cur++; curoff = 0; } }
+
+/* ---- H_REALIO=2: frames on the real descriptor 0 ---- */
+static unsigned char *fbuf; static size_t flen, foff; static int fr_eof;
+static int fd0_wait(int ms) { struct pollfd p = { .fd = 0, .events = POLLIN }; return (int)syscall(SYS_poll, &p, 1, ms); }
+static int fd0_full(unsigned char *b, size_t n)	/* 1 ok, 0 EOF, -1 error; waits for the rest of what has begun */
+{
+	size_t got = 0;
+	while (got < n) {
+		ssize_t k = syscall(SYS_read, 0, b + got, n - got);
+		if (k == 0) return 0;
+		if (k < 0) { if (errno == EAGAIN || errno == EINTR) { fd0_wait(-1); continue; } return -1; }
+		got += (size_t)k;
+	}
+	return 1;
+}
+/* 1: bytes of a frame (or EOF) are at hand; 0: nothing has arrived within ms */
+static int frame_ready(int ms)
+{
+	while (foff >= flen && !fr_eof) {
+		unsigned char h[4];
+		int r = fd0_wait(ms);
+		if (r <= 0) return 0;
+		if (fd0_full(h, 4) != 1) { fr_eof = 1; break; }
+		flen = ((size_t)h[0] << 24) | ((size_t)h[1] << 16) | ((size_t)h[2] << 8) | h[3]; foff = 0;
+		free(fbuf); fbuf = malloc(flen ? flen : 1);
+		if (flen && fd0_full(fbuf, flen) != 1) { fr_eof = 1; flen = 0; }
+	}
+	return 1;
+}
+static int fd0_nonblock(void) { int fl = fcntl(0, F_GETFL); return fl != -1 && (fl & O_NONBLOCK); }
 
 ssize_t read(int fd, void *buf, size_t n)
 {
+	if (fd == 0 && realio == 2) {
+		if (!frame_ready(fd0_nonblock() ? 0 : -1)) { errno = EAGAIN; return -1; }
+		if (foff >= flen) return 0;
+		size_t k = flen - foff;
+		if (k > n) k = n;
+		memcpy(buf, fbuf + foff, k);
+		foff += k;
+		return (ssize_t)k;
+	}
 	if (fd != 0 || realio) return syscall(SYS_read, fd, buf, n);
 	skip_empty();
 	while (cur < nitems && iswait[cur]) { cur++; curoff = 0; skip_empty(); }
@@ -68,6 +163,18 @@ ssize_t read(int fd, void *buf, size_t n)
 }
 int poll(struct pollfd *fds, nfds_t nfds, int timeout)
 {
+	if (realio && nfds == 1 && fds[0].fd == 0) {
+		/* tarpit(): descriptor still blocking (no handshake under way, no TLS) and plain POLLIN */
+		if (timeout > 0 && fds[0].events == POLLIN && !fd0_nonblock()) { ntarpit++; timeout = 0; }
+		else if (timeout != 0) state_line();	/* the server blocks for input */
+		if (realio == 2) {
+			fds[0].revents = 0;
+			if (!frame_ready(timeout)) return 0;
+			fds[0].revents = POLLIN;
+			return 1;
+		}
+		return (int)syscall(SYS_poll, fds, nfds, timeout);
+	}
 	if (nfds != 1 || fds[0].fd != 0 || realio) {
 		if (!realio && nfds == 1 && fds[0].fd == 1) { fds[0].revents = POLLOUT; return 1; }
 		return (int)syscall(SYS_poll, fds, nfds, timeout);
@@ -119,7 +226,7 @@ int main(int argc, char **argv)
 {
 	if (argc < 2) return 2;
 	if (chdir(argv[1])) { perror("chdir"); return 2; }
-	realio = getenv("H_REALIO") != NULL;
+	realio = getenv("H_REALIO") ? (atoi(getenv("H_REALIO")) == 2 ? 2 : 1) : 0;
 	FILE *e = fopen("env", "r");
 	if (e) {
 		char line[4096];
